@@ -116,19 +116,29 @@ class Flow:
             got["content"] = fut.result()
         svc = self.svc
         sent_log = self.env["sent_log"]
-        mark = len(sent_log)
+        mark = self.env["sent_seq"][0]
         loop = asyncio.get_running_loop()
         task = asyncio.ensure_future(coro_fn(cb))
         t_end = loop.time() + 10
+        recv_task = None
         while not task.done():
             await asyncio.sleep(0.005)
-            if reply_type and "content" not in got:
-                sent = [t for (sid, ty, t) in sent_log[mark:] if sid == self.sid and ty == reply_type]
-                if sent and loop.time() - sent[0] > 2.0:
-                    task.cancel()
-                    with contextlib.suppress(BaseException):
-                        await task
-                    return ("lost", reply_type)
+            if recv_task is None and svc.websocket is not None:
+                for t in asyncio.all_tasks():
+                    co = t.get_coro()
+                    if getattr(co, "__name__", "") == "_recv_message" and getattr(co, "cr_frame", None) is not None \
+                            and co.cr_frame.f_locals.get("self") is svc:
+                        recv_task = t
+            if reply_type and "content" not in got and recv_task is not None and recv_task.done() \
+                    and not recv_task.cancelled() and recv_task.exception() is not None \
+                    and any(seq > mark and sid == self.sid and ty == reply_type for (seq, sid, ty) in sent_log):
+                # logical, not wall-clock: the server produced the reply and the client's receive loop has ended with
+                # an exception, so the reply can never reach the callback
+                exc = recv_task.exception()
+                task.cancel()
+                with contextlib.suppress(BaseException):
+                    await task
+                return ("lost", f"{reply_type}: the client's receive loop died with {type(exc).__name__}: {exc}")
             if svc.websocket is not None and svc.websocket.closed and "content" not in got:
                 task.cancel()
                 with contextlib.suppress(BaseException):
